@@ -1,0 +1,57 @@
+//go:build verif
+
+package blake2b
+
+// Contracts for govc (/verif). Comments only.
+
+// Representation invariant of a digest: everything Write, Sum and finalize
+// index with is in range.
+//@ pred dinv(d) = 1 <= d.size && d.size <= 64 && 0 <= d.offset && d.offset <= 128 && 0 <= d.keyLen && d.keyLen <= 64
+
+//@ func hashBlocks
+//@ props C07
+//@ trusted
+//@ note amd64 dispatcher over AVX2/AVX/SSE4 assembly and hashBlocksGeneric: assumed to write only *h and *c
+//@ nonnil h c
+//@ may_panic_when len(blocks) % 128 != 0
+//@ modifies *h
+//@ modifies *c
+
+//@ func consumeUint64
+//@ props C07
+//@ pure
+//@ may_panic_when len(b) < 8
+//@ ensures ref(result0) == ref(b) && off(result0) == off(b) + 8 && len(result0) == len(b) - 8
+//@ ensures result1 == b[7] + b[6]*256 + b[5]*65536 + b[4]*16777216 + b[3]*4294967296 + b[2]*1099511627776 + b[1]*281474976710656 + b[0]*72057594037927936
+
+//@ func (*digest).Write
+//@ props C07
+//@ requires dinv(d)
+//@ requires ref(p) != ref(d.block[:])
+//@ modifies d.*
+//@ ensures dinv(d) && n == len(p) && err == nil
+//@ ensures d.size == old(d.size) && d.keyLen == old(d.keyLen)
+
+//@ func (*digest).finalize
+//@ props C07
+//@ nonnil hash
+//@ requires dinv(d)
+//@ modifies *hash
+//@ ensures d.size == old(d.size) && d.offset == old(d.offset)
+
+//@ func (*digest).Sum
+//@ props C07
+//@ requires dinv(d)
+//@ fresh result
+//@ ensures len(result) == len(sum) + d.size
+//@ ensures d.size == old(d.size) && d.offset == old(d.offset)
+
+//@ func (*digest).UnmarshalBinary
+//@ props C07
+//@ modifies d.*
+//@ ensures implies(result == nil, len(b) == 213 && b[0] == 'b' && b[1] == '2' && b[2] == 'b')
+//@ ensures implies(result == nil, d.size == b[83] && d.offset == b[212] && d.keyLen == old(d.keyLen))
+//@ ensures implies(result == nil, forall(i, 0, 128, d.block[i] == b[84+i]))
+//@ ensures implies(result == nil, dinv(d))
+//@ ensures implies(len(b) != 213, result != nil)
+//@ canary ensures result == nil
